@@ -555,20 +555,20 @@ theorem pool1_opCcs {s : St} (h : Pool1 ci s) (ver : Nat) : Pool1 ci (opCcs s ve
   have h0 : Pool1 ci { s with addrs := ver } :=
     ⟨h.cin, bij_of_same h.bij ⟨rfl, rfl, fun _ => rfl⟩, tables_of_same h.tab ⟨rfl, rfl, rfl, rfl, rfl, rfl, rfl⟩, h.cfgOk, h.size⟩
   have h1 := (pool1_ccsConfigure h0).1
-  generalize ccsConfigure { s with addrs := ver } = r1 at h1 ⊢
+  have h1c := (pool1_ccsConfigure h0).2
+  generalize ccsConfigure { s with addrs := ver } = r1 at h1 h1c ⊢
   obtain ⟨s1, ev0⟩ := r1
-  simp only at h1 ⊢
-  have h2 := pool1_of_same h1 (sameC_updateAll s1 (ccsTargets s1)) (tables_of_same h1.tab (updateAll_sameT s1 (ccsTargets s1)))
-  generalize updateAll s1 (ccsTargets s1) = r2 at h2 ⊢
+  simp only at h1 h1c ⊢
+  have hsc := sameC_updateAll s1 (ccsTargets s1)
+  have h2 := pool1_of_same h1 hsc (tables_of_same h1.tab (updateAll_sameT s1 (ccsTargets s1)))
+  have h2c : (updateAll s1 (ccsTargets s1)).1.cfg = some (initialCfg (updateAll s1 (ccsTargets s1)).1.cfgIn) := by
+    rw [hsc.2.1, hsc.2.2]; exact h1c
+  generalize updateAll s1 (ccsTargets s1) = r2 at h2 h2c ⊢
   obtain ⟨s2, ev1⟩ := r2
-  simp only at h2 ⊢
+  simp only at h2 h2c ⊢
   split
-  · rename_i he
-    have hemp : s2.scRefs = [] := by simpa using he
-    have h3 := pool1_addSubConn h2 (fun _ => by rw [hemp]; exact initialCfg_max_pos _)
-    generalize addSubConn s2 = r3 at h3 ⊢
-    obtain ⟨s3, ok, ev2⟩ := r3
-    exact h3
+  · rw [h2c]
+    exact pool1_enforce h2 _ _ (fun hmm => hmm)
   · exact h2
 
 theorem pool1_getLeastBusy {s : St} (h : Pool1 ci s) (c : Cfg) (hc : c = initialCfg s.cfgIn) (l : List Slot) :
